@@ -67,29 +67,33 @@ def decChecker (j : Json) : Except String Rbacx.PyR.Checker :=
       | some (_, .error _) => none
       | none => some (.str "<checker table miss>"))
 
+/-- all external tables of one line as ONE function of (name, arguments): the translation is applied by name (`Src.*_run`, rendered by
+    the plugin from the externals the current source still uses), so a source change that drops or adds an external does not break this file -/
+def decExts (ext : Json) : Except String (String → List PyVal → Except CondErr PyVal) := do
+  let names := ["getattr", "fromtimestamp", "fromisoformat", "_ctx_hash", "resolve_awaitable_in_worker"]
+  let tables ← names.mapM fun n => do let t ← decExt (field ext n); pure (n, t)
+  pure fun n args => match tables.find? (fun e => e.1 == n) with | some e => e.2 args | none => .error (.raised "ExtMiss")
+
 def evalLine (j : Json) : Except String Json := do
   let args ← (match field j "args" with | .arr xs => xs.toList.mapM decVal | _ => throw "args")
   let o ← decOracle (field j "oracle")
-  let ext := field j "ext"
-  let ga ← decExt (field ext "getattr")
-  let getattr := fun a b c => ga [a, b, c]
-  match fieldStr j "fn", args with
-  | "_parse_dt", [x, strict] => do
-    let ft ← decExt (field ext "fromtimestamp")
-    let fi ← decExt (field ext "fromisoformat")
-    pure (encRes (Src.parse_dt (fun v => ft [v]) (fun v => fi [v]) x strict))
-  | "_canon_subject", [env, ov] => pure (encRes (Src.canon_subject o getattr env ov))
-  | "_canon_resource", [env, ov] => pure (encRes (Src.canon_resource o getattr env ov))
-  | "rel_range", [cond, env] => do
-    let ch ← decExt (field ext "_ctx_hash")
-    let ra ← decExt (field ext "resolve_awaitable_in_worker")
+  let ext ← decExts (field j "ext")
+  let arity : Except String Json := throw s!"{fieldStr j "fn"}: not translated, or called with {args.length} arguments"
+  match fieldStr j "fn" with
+  | "_parse_dt" => (match Src.parse_dt_run o ext args with | some r => pure (encRes r) | none => arity)
+  | "_canon_subject" => (match Src.canon_subject_run o ext args with | some r => pure (encRes r) | none => arity)
+  | "_canon_resource" => (match Src.canon_resource_run o ext args with | some r => pure (encRes r) | none => arity)
+  | "rel_range" => do
     let checker ← decChecker (field j "checker")
     let loop := Rbacx.PyR.handle ((field j "eval_loop").getBool?.toOption.getD false)
     let memo ← decMemo (field j "memo")
-    let (r, st) := Src.rel_range o getattr (fun c => ch [c]) (fun a b c => ra [a, b, c]) checker loop cond env { memo := memo, calls := [] }
-    pure (Json.mkObj [("res", encRes r), ("memo", encMemo st.memo),
-      ("calls", Json.arr (st.calls.map fun c => Json.arr (c.map encVal).toArray).toArray)])
-  | fn, _ => throw s!"unknown function or arity: {fn}/{args.length}"
+    match Src.rel_range_run o ext checker loop args with
+    | none => arity
+    | some m =>
+      let (r, st) := m { memo := memo, calls := [] }
+      pure (Json.mkObj [("res", encRes r), ("memo", encMemo st.memo),
+        ("calls", Json.arr (st.calls.map fun c => Json.arr (c.map encVal).toArray).toArray)])
+  | fn => throw s!"unknown function: {fn}"
 
 partial def loop (hin hout : IO.FS.Stream) : IO Unit := do
   let line ← hin.getLine
